@@ -12,7 +12,7 @@ import os
 from .common import REPO_SRC, LEAN_DIR
 
 PKG = os.path.join(REPO_SRC, 'entity_query_language')
-OUT = os.path.join(LEAN_DIR, 'EqlModel', 'Gen', 'Tables.lean')
+OUT = os.environ.get('EQL_TABLES_OUT') or os.path.join(LEAN_DIR, 'EqlModel', 'Gen', 'Tables.lean')
 
 OPS = {'eq', 'ne', 'lt', 'le', 'gt', 'ge', 'contains'}
 LEAN_OP = {'eq': '.eq', 'ne': '.ne', 'lt': '.lt', 'le': '.le', 'gt': '.gt', 'ge': '.ge',
@@ -282,6 +282,142 @@ def caching_default(cache):
     raise Untranslatable('_caching_enabled default not found')
 
 
+
+# ----------------------------------------------------------------------------- guards and entry points
+
+def _calls(node, name):
+    """All Call nodes below `node` whose function is `name` (a bare name or an attribute of anything)."""
+    out = []
+    for n in ast.walk(node):
+        if isinstance(n, ast.Call):
+            f = n.func
+            if (isinstance(f, ast.Name) and f.id == name) or (isinstance(f, ast.Attribute) and f.attr == name):
+                out.append(n)
+    return out
+
+
+def _raises_attribute_error_unless_symbolic(stmt):
+    """`if not in_symbolic_mode(): raise AttributeError(...)`"""
+    if not isinstance(stmt, ast.If) or stmt.orelse:
+        return False
+    t = stmt.test
+    if not (isinstance(t, ast.UnaryOp) and isinstance(t.op, ast.Not) and isinstance(t.operand, ast.Call)
+            and getattr(t.operand.func, 'id', None) == 'in_symbolic_mode' and not t.operand.args):
+        return False
+    return len(stmt.body) == 1 and isinstance(stmt.body[0], ast.Raise) and isinstance(stmt.body[0].exc, ast.Call) \
+        and getattr(stmt.body[0].exc.func, 'id', None) == 'AttributeError'
+
+
+def variable_operators(sym):
+    """Every dunder method defined on CanBehaveLikeAVariable (the symbolic operators of a variable) and whether it
+    begins with the symbolic-mode guard; and whether the guard helper raises AttributeError outside symbolic mode."""
+    cls = _find(sym, ast.ClassDef, 'CanBehaveLikeAVariable')
+    helper_ok = False
+    ops = []
+    for n in cls.body:
+        if not isinstance(n, ast.FunctionDef):
+            continue
+        if n.name == '_if_not_in_symbolic_mode_raise_error_':
+            body = [b for b in n.body if not (isinstance(b, ast.Expr) and isinstance(b.value, ast.Constant))]
+            helper_ok = len(body) == 1 and _raises_attribute_error_unless_symbolic(body[0])
+        if n.name.startswith('__') and n.name.endswith('__') and n.name not in ('__hash__', '__post_init__'):
+            body = [b for b in n.body if not (isinstance(b, ast.Expr) and isinstance(b.value, ast.Constant))]
+            first = body[0] if body else None
+            guarded = bool(first is not None and (
+                _raises_attribute_error_unless_symbolic(first) or
+                (isinstance(first, ast.Expr) and isinstance(first.value, ast.Call)
+                 and isinstance(first.value.func, ast.Attribute)
+                 and first.value.func.attr == '_if_not_in_symbolic_mode_raise_error_')))
+            ops.append((n.name, guarded))
+    if not ops:
+        raise Untranslatable('CanBehaveLikeAVariable defines no operator method')
+    return ops, helper_ok
+
+
+def _with_mode_none(node):
+    """The `with symbolic_mode(mode=None):` statements below `node`."""
+    out = []
+    for n in ast.walk(node):
+        if isinstance(n, ast.With):
+            for item in n.items:
+                c = item.context_expr
+                if isinstance(c, ast.Call) and getattr(c.func, 'id', None) == 'symbolic_mode' and not c.args and \
+                        len(c.keywords) == 1 and c.keywords[0].arg == 'mode' and \
+                        isinstance(c.keywords[0].value, ast.Constant) and c.keywords[0].value.value is None:
+                    out.append(n)
+    return out
+
+
+def entry_points(sym):
+    """How the two entry points and the mode guard are written (flags, each `true` on the pinned tree):
+    an_mode_off          An.evaluate advances its result stream only inside `with symbolic_mode(mode=None)`
+    an_yield_outside     ... and yields OUTSIDE that block (the caller's mode is untouched while the iterator is suspended)
+    the_mode_off         The.evaluate computes inside `with symbolic_mode(mode=None)`
+    restores_in_finally  symbolic_mode restores the previous mode in a `finally`
+    hides_contexts       symbolic_mode(mode=None) swaps the expression-context stack for an empty one and restores it
+    an_resets_finally    An.evaluate calls _reset_after_evaluation_(completed) in its `finally`
+    the_resets_finally   The.evaluate does too
+    an_resets_at_start   An.evaluate resets as after an incomplete evaluation when a reached query is marked as running
+    reset_reaches_domains  _nodes_reached_by_evaluation_ follows a variable's symbolic domain source"""
+    an = _find(sym, ast.ClassDef, 'An')
+    the = _find(sym, ast.ClassDef, 'The')
+    rq = _find(sym, ast.ClassDef, 'ResultQuantifier')
+    an_eval = next((n for n in an.body if isinstance(n, ast.FunctionDef) and n.name == 'evaluate'), None)
+    the_eval = next((n for n in the.body if isinstance(n, ast.FunctionDef) and n.name == 'evaluate'), None)
+    smode = _find(sym, ast.FunctionDef, 'symbolic_mode')
+    reached = next((n for n in rq.body if isinstance(n, ast.FunctionDef) and n.name == '_nodes_reached_by_evaluation_'), None)
+    if an_eval is None or the_eval is None or reached is None:
+        raise Untranslatable('An.evaluate / The.evaluate / _nodes_reached_by_evaluation_ not found')
+    flags = {}
+    # An.evaluate: every next(results) lies inside a with-mode-None block; no yield does
+    withs = _with_mode_none(an_eval)
+    nexts = _calls(an_eval, 'next')
+    inside = [c for w in withs for c in _calls(w, 'next')]
+    flags['an_mode_off'] = bool(nexts) and len(inside) == len(nexts)
+    yields_inside = [y for w in withs for y in ast.walk(w) if isinstance(y, (ast.Yield, ast.YieldFrom))]
+    flags['an_yield_outside'] = any(isinstance(y, ast.Yield) for y in ast.walk(an_eval)) and not yields_inside
+    # The.evaluate: the call of _evaluate_ lies inside a with-mode-None block
+    tw = _with_mode_none(the_eval)
+    te = _calls(the_eval, '_evaluate_')
+    flags['the_mode_off'] = bool(te) and len([c for w in tw for c in _calls(w, '_evaluate_')]) == len(te)
+
+    def finally_calls(fn, name):
+        return [c for t in ast.walk(fn) if isinstance(t, ast.Try) for st in t.finalbody for c in _calls(st, name)]
+    flags['restores_in_finally'] = bool(finally_calls(smode, '_set_symbolic_mode'))
+    # hides_contexts: an `if mode is None:` that assigns SymbolicExpression._symbolic_expression_stack_ = [] and a
+    # finally that assigns it back
+    def assigns_stack(node, empty):
+        for a in ast.walk(node):
+            if isinstance(a, ast.Assign) and len(a.targets) == 1 and isinstance(a.targets[0], ast.Attribute) \
+                    and a.targets[0].attr == '_symbolic_expression_stack_':
+                is_empty = isinstance(a.value, ast.List) and not a.value.elts
+                if is_empty == empty:
+                    return True
+        return False
+    hides = False
+    for n in ast.walk(smode):
+        if isinstance(n, ast.If) and isinstance(n.test, ast.Compare) and getattr(n.test.left, 'id', None) == 'mode' \
+                and len(n.test.ops) == 1 and isinstance(n.test.ops[0], ast.Is) \
+                and isinstance(n.test.comparators[0], ast.Constant) and n.test.comparators[0].value is None:
+            hides = hides or assigns_stack(n, True)
+    restores = any(assigns_stack(st, False) for t in ast.walk(smode) if isinstance(t, ast.Try) for st in t.finalbody)
+    flags['hides_contexts'] = hides and restores
+    flags['an_resets_finally'] = bool(finally_calls(an_eval, '_reset_after_evaluation_'))
+    flags['the_resets_finally'] = bool(finally_calls(the_eval, '_reset_after_evaluation_'))
+    # start-of-evaluation reset: an `if` that mentions _running_evaluation_ and calls _reset_after_evaluation_(completed=False)
+    start = False
+    for n in an_eval.body:
+        if isinstance(n, ast.If) and any(isinstance(a, ast.Attribute) and a.attr == '_running_evaluation_' for a in ast.walk(n.test)):
+            for c in _calls(n, '_reset_after_evaluation_'):
+                if any(k.arg == 'completed' and isinstance(k.value, ast.Constant) and k.value.value is False for k in c.keywords):
+                    start = True
+    flags['an_resets_at_start'] = start
+    flags['reset_reaches_domains'] = any(
+        isinstance(a, ast.Attribute) and a.attr == 'domain' and isinstance(a.value, ast.Attribute)
+        and a.value.attr == '_domain_source_' for c in _calls(reached, 'append') for a in ast.walk(c))
+    return flags
+
+
 def render():
     sym = _parse('symbolic.py')
     ent = _parse('entity.py')
@@ -340,6 +476,24 @@ def render():
     L.append('')
     L.append('/-- cache_data.py: default of the caching switch. -/')
     L.append(f'def cachingDefault : Bool := {b(cdef)}')
+    L.append('')
+    ops, helper_ok = variable_operators(sym)
+    L.append('/-- Every dunder method defined on `CanBehaveLikeAVariable` (the symbolic operators of a variable: attribute')
+    L.append('    access, indexing, calling, comparisons, membership) and whether its body BEGINS with the symbolic-mode guard')
+    L.append('    (`if not in_symbolic_mode(): raise AttributeError` or `self._if_not_in_symbolic_mode_raise_error_(..)`). -/')
+    L.append('def varOperators : List (String × Bool) := [' + ', '.join(f'("{n}", {b(g)})' for n, g in ops) + ']')
+    L.append('/-- `_if_not_in_symbolic_mode_raise_error_` is `if not in_symbolic_mode(): raise AttributeError(..)`. -/')
+    L.append(f'def guardHelperRaises : Bool := {b(helper_ok)}')
+    L.append('')
+    fl = entry_points(sym)
+    L.append('/-- How the entry points `An.evaluate` / `The.evaluate`, the guard `symbolic_mode` and the reset are written')
+    L.append('    (see `harness/translate.py: entry_points` for what each flag means; all `true` on the pinned tree). -/')
+    for k_, name in (('an_mode_off', 'anAdvancesWithModeOff'), ('an_yield_outside', 'anYieldsOutsideTheGuard'),
+                     ('the_mode_off', 'theComputesWithModeOff'), ('restores_in_finally', 'modeRestoredInFinally'),
+                     ('hides_contexts', 'evaluationHidesContexts'), ('an_resets_finally', 'anResetsInFinally'),
+                     ('the_resets_finally', 'theResetsInFinally'), ('an_resets_at_start', 'anResetsAtStartWhenRunning'),
+                     ('reset_reaches_domains', 'resetReachesDomainSources')):
+        L.append(f'def {name} : Bool := {b(fl[k_])}')
     L.append('')
     L.append('end Eql.Gen')
     return '\n'.join(L) + '\n'
